@@ -167,11 +167,14 @@ ForestJoinsScanned ==
 \* after compaction: regions are the components, masked pixels are region 0, and ids are numbered
 \* in the order of their first pixel (which _scan relies on: "regions[ij] == region_done+1")
 Labelled == pc \in {"scan_ext", "scan_hole", "follow", "done"}
+\* (regions is not written after compaction - every later action says UNCHANGED regions - so the two
+\* statements about it are evaluated in the state right after compaction and in the final state only)
+Compacted == (pc = "scan_ext" /\ ij = 0) \/ pc = "done"
 RegionsAreComponents ==
-  Labelled => /\ \A k \in 0..NN-1 : (regions[k] = 0) <=> (k \notin Pixels)
-              /\ {{Cell(k2) : k2 \in {k3 \in Pixels : regions[k3] = regions[k1]}} : k1 \in Pixels} = comps
+  Compacted => /\ \A k \in 0..NN-1 : (regions[k] = 0) <=> (k \notin Pixels)
+               /\ {{Cell(k2) : k2 \in {k3 \in Pixels : regions[k3] = regions[k1]}} : k1 \in Pixels} = comps
 FirstPixelOrder ==
-  Labelled => \A k \in 0..NN-1 : regions[k] > 1 => \E k0 \in 0..k : regions[k0] = regions[k] - 1
+  Compacted => \A k \in 0..NN-1 : regions[k] > 1 => \E k0 \in 0..k : regions[k0] = regions[k] - 1
 
 \* ---- the scan and the boundary following
 \* a hole is only ever attached to a polygon that already exists
